@@ -47,8 +47,10 @@ func call(fun ast.Expr, args ...ast.Expr) *ast.CallExpr {
 	return &ast.CallExpr{Fun: fun, Args: args}
 }
 
-var syncOK = map[string]bool{"Mutex": true, "WaitGroup": true, "Map": true, "Once": true, "Locker": true}
-var atomicOK = map[string]bool{"Value": true, "AddInt64": true, "LoadInt64": true, "StoreInt64": true, "AddInt32": true, "LoadInt32": true, "StoreInt32": true, "CompareAndSwapInt32": true, "CompareAndSwapInt64": true}
+var syncOK = map[string]bool{"Mutex": true, "WaitGroup": true, "Map": true, "Once": true, "Locker": true, "RWMutex": true, "Pool": true}
+var atomicOK = map[string]bool{"Value": true, "AddInt64": true, "LoadInt64": true, "StoreInt64": true, "AddInt32": true, "LoadInt32": true, "StoreInt32": true, "CompareAndSwapInt32": true, "CompareAndSwapInt64": true,
+	"Bool": true, "Int32": true, "Int64": true, "Uint32": true, "Uint64": true, "Pointer": true, "AddUint32": true, "LoadUint32": true, "StoreUint32": true, "AddUint64": true, "LoadUint64": true, "StoreUint64": true,
+	"SwapInt32": true, "SwapInt64": true, "SwapUint32": true, "SwapUint64": true, "CompareAndSwapUint32": true, "CompareAndSwapUint64": true}
 var runtimeMapped = map[string]bool{"GOMAXPROCS": true, "NumCPU": true}
 
 type fileCtx struct {
